@@ -9,7 +9,9 @@
      permanode  a permanode
      claim      set-attribute claim on permanode `target` whose VALUE is the ref of mention[1]
                 (a genuine schema blob that names a ref in a non-link field)
-     share      share claim: target, transitive, expires (seconds after 2011-11-28; 0 = never)
+     share      share claim: target, transitive, expires (seconds after 2011-11-28; 0 = never);
+                search = TRUE: a share of a SEARCH (what `pk-put share -search=..` writes): it has a
+                "search" field and NO "target" (target = 0)
      delete     delete claim of item `target` (a share; or a delete = undelete)
      chunk      plain bytes; with `mention`: plain bytes that contain the text of those refs
      bytes/file `parts` (blobRef / bytesRef links); with `mention`: the refs also occur in a
@@ -19,12 +21,14 @@
    stored = FALSE: the blob exists (has a ref) but is neither in the store nor indexed. *)
 EXTENDS Naturals, Sequences
 
-It(id, kind) == [id |-> id, kind |-> kind, target |-> 0, transitive |-> FALSE, expires |-> 0,
+It(id, kind) == [id |-> id, kind |-> kind, target |-> 0, transitive |-> FALSE, expires |-> 0, search |-> FALSE,
                  parts |-> <<>>, children |-> <<>>, merge |-> <<>>, mention |-> <<>>, stored |-> TRUE]
 Blob(ref)  == [kind |-> "blob",  ref |-> ref, off |-> 0, size |-> 16]       \* every plain chunk is 16 bytes
 Bytes(ref, size) == [kind |-> "bytes", ref |-> ref, off |-> 0, size |-> size]
 Share(id, target, transitive, expires) ==
   [It(id, "share") EXCEPT !.target = target, !.transitive = transitive, !.expires = expires]
+SearchShare(id, transitive, expires) ==
+  [It(id, "share") EXCEPT !.search = TRUE, !.transitive = transitive, !.expires = expires]
 Delete(id, target) == [It(id, "delete") EXCEPT !.target = target]
 
 Past   == 100            \* 2011: long expired
@@ -76,6 +80,21 @@ WorldC == <<
   Share(10, 9, TRUE, 0),
   Share(11, 5, TRUE, 0) >>
 
-WorldSeq   == <<WorldA, WorldB, WorldC>>
-WorldNames == <<"A-tree", "B-deletes", "C-mergesets">>
+(* D: shares of a search (no target): transitive, non-transitive, expired, deleted; next to them an
+   ordinary share of the file and a share whose target is a search share. *)
+WorldD == <<
+  It(1, "key"),
+  It(2, "chunk"),
+  [It(3, "file") EXCEPT !.parts = <<Blob(2)>>],
+  [It(4, "staticset") EXCEPT !.children = <<3>>],
+  SearchShare(5, TRUE, 0),
+  SearchShare(6, FALSE, 0),
+  SearchShare(7, TRUE, Past),
+  SearchShare(8, TRUE, 0),
+  Delete(9, 8),
+  Share(10, 3, TRUE, 0),
+  Share(11, 5, FALSE, 0) >>
+
+WorldSeq   == <<WorldA, WorldB, WorldC, WorldD>>
+WorldNames == <<"A-tree", "B-deletes", "C-mergesets", "D-searchshares">>
 =============================================================================
